@@ -15,7 +15,11 @@ git -C /repo worktree add -q --detach "$ROOT/repo" HEAD || exit 2
 if ! git -C "$ROOT/repo" apply "$PATCH"; then
     echo "$NAME: patch does not apply"; git -C /repo worktree remove --force "$ROOT/repo"; rm -rf "$ROOT"; exit 2
 fi
-cp -r /verif/sim "$ROOT/sim"
+# SENS_SIM: which simulator source to build (a frozen snapshot keeps a long
+# matrix run consistent while /verif/sim is being edited).
+SIM_SRC="${SENS_SIM:-/verif/sim}"
+if [ -z "${SENS_SIM:-}" ] && [ -d /var/tmp/sim_frozen ]; then SIM_SRC=/var/tmp/sim_frozen; fi
+cp -r "$SIM_SRC" "$ROOT/sim"
 sed -i "s|path = \"/repo\"|path = \"$ROOT/repo\"|" "$ROOT/sim/Cargo.toml"
 sed -i "s|target-dir = \"/verif/target\"|target-dir = \"$TARGET\"|" "$ROOT/sim/.cargo/config.toml"
 cd "$ROOT/sim" || exit 2
